@@ -6,7 +6,7 @@ from enum import Enum, IntEnum
 
 from asyncfix import FMsg, FTag
 from asyncfix.codec import Codec
-from asyncfix.errors import FIXConnectionError
+from asyncfix.errors import FIXConnectionError, FIXMessageError
 from asyncfix.journaler import Journaler
 from asyncfix.message import FIXMessage, MessageDirection
 from asyncfix.protocol import FIXProtocolBase
@@ -531,9 +531,14 @@ class AsyncFIXConnection:
             # this will drop connection without a message
             return True
 
-        if not self._session.validate_comp_ids(
-            msg[FTag.SenderCompID], msg[FTag.TargetCompID]
-        ):
+        try:
+            is_valid_comp_ids = self._session.validate_comp_ids(
+                msg[FTag.SenderCompID], msg[FTag.TargetCompID]
+            )
+        except FIXMessageError:
+            # tag is repeated in the message
+            is_valid_comp_ids = False
+        if not is_valid_comp_ids:
             # Sender/Target are reversed here
             return "TargetCompID / SenderCompID mismatch"
 
@@ -541,7 +546,11 @@ class AsyncFIXConnection:
         if FTag.MsgSeqNum not in msg:
             return "MsgSeqNum(34) tag is missing"
 
-        msg_seq_num = int(msg[FTag.MsgSeqNum])
+        try:
+            msg_seq_num = int(msg[FTag.MsgSeqNum])
+        except (FIXMessageError, ValueError):
+            # not a number or repeated tag
+            return "MsgSeqNum(34) tag is invalid"
         if msg_seq_num < self._session.next_num_in:
             _is_err = True
             if msg.msg_type == FMsg.SEQUENCERESET:
